@@ -45,6 +45,15 @@ def run_case(case, chooser):
         for k, (i, e) in enumerate(case["events"]):
             if k >= case.get("explore_from", 0):
                 chooser.active = True
+            if e == "@start-again":
+                # start() called a second time on the running server (another listening address); sessions accepted
+                # before keep working and give their ports back when they end
+                chooser.active = False
+                try:
+                    w.run(rig.server.start(host, 2122))
+                except Exception as exc:
+                    problems.append({"kind": "second-start-failed", "exc": repr(exc)[:200]})
+                continue
             if e == "@close-server":
                 chooser.active = False
                 closed_server = True
@@ -61,9 +70,11 @@ def run_case(case, chooser):
             for j, s in enumerate(rig.sessions):
                 if s.ctl is not None and (s.ctl.closed_by_peer or s.ctl.t.closing):
                     alive[j] = False
-            # invariant at every quiescent point
-            for p in ledger.pool_invariant(w, rig.server, pool):
-                problems.append({"after": [i, e], **p})
+            # invariant at every quiescent point (the white-box owner lookup needs the connection table, which a second
+            # start() resets: those cases are judged at the end only)
+            if not case.get("final_only"):
+                for p in ledger.pool_invariant(w, rig.server, pool):
+                    problems.append({"after": [i, e], **p})
             # exhaustion => 421 ; free port and no faults => success
             if e in ("PASV", "EPSV") and r is not None and alive[i] is not None:
                 codes = [c for c, _ in r]
@@ -111,8 +122,9 @@ def run_case(case, chooser):
             if pl is not None and sorted(pl) != sorted(pool):
                 problems.append({"kind": "pool-not-whole-after-all-sessions-gone", "pool": pl,
                                  "configured": sorted(pool)})
-            for p in ledger.released_problems(w, rig.server):
-                problems.append({"after": "all-gone", **p})
+            if not case.get("final_only"):
+                for p in ledger.released_problems(w, rig.server):
+                    problems.append({"after": "all-gone", **p})
             # black-box probe: |pool| fresh sessions get |pool| distinct configured ports, the next one 421
             w.net.bind_plan = {}
             got = []
@@ -254,6 +266,12 @@ def build_items(tier):
                         [(0, "PASV"), (1, "PASV")], [(0, "PASV"), (0, "@drop")]):
                 items.append(("seq", {"name": f"life-{ports_as}-p{psize}", "pool": PORTS[:psize], "n": 2,
                                       "events": pre + [(0, "@close-server")], "ports_as": ports_as}, 0, [], None))
+    # start() twice
+    for psize in (1, 2):
+        for pre, post in (([(0, "PASV")], [(0, "QUIT")]), ([(0, "EPSV"), (0, "@data")], [(0, "@drop")]),
+                          ([(0, "PASV"), (1, "PASV")], [(0, "QUIT"), (1, "@drop")]), ([], [(0, "PASV"), (0, "QUIT")])):
+            items.append(("seq", {"name": f"start-twice-p{psize}", "pool": PORTS[:psize], "n": 2,
+                                  "events": pre + [(0, "@start-again")] + post, "final_only": True}, 0, [], None))
     # bind fault plans: every assignment of {ok, EADDRINUSE, EACCES} to the first two attempts per port
     outcomes = ["ok", errno.EADDRINUSE, errno.EACCES]
     fault_scripts = [
